@@ -1,0 +1,51 @@
+//go:build verif
+
+// Read-only introspection used by the verification harness in /verif.
+// Compiled only with the "verif" build tag; the library behaves identically
+// with or without it.
+
+package store
+
+// VerifLayout describes the in-memory layout of a store.
+type VerifLayout struct {
+	Kind              string
+	ArrayLen          int
+	Offset            int
+	MinIndex          int
+	MaxIndex          int
+	MaxNumBins        int
+	Collapsed         bool
+	BufferLen         int
+	BufferCap         int
+	CompactionTrigger int
+	PageSlots         int
+	AllocatedPages    int
+	MinPageIndex      int
+	PagesUnused       bool
+}
+
+// VerifInspect returns the layout of s; ok is false for unknown store types.
+func VerifInspect(s Store) (l VerifLayout, ok bool) {
+	switch t := s.(type) {
+	case *DenseStore:
+		return VerifLayout{Kind: "dense", ArrayLen: len(t.bins), Offset: t.offset, MinIndex: t.minIndex, MaxIndex: t.maxIndex}, true
+	case *CollapsingLowestDenseStore:
+		return VerifLayout{Kind: "clow", ArrayLen: len(t.bins), Offset: t.offset, MinIndex: t.minIndex, MaxIndex: t.maxIndex,
+			MaxNumBins: t.maxNumBins, Collapsed: t.isCollapsed}, true
+	case *CollapsingHighestDenseStore:
+		return VerifLayout{Kind: "chigh", ArrayLen: len(t.bins), Offset: t.offset, MinIndex: t.minIndex, MaxIndex: t.maxIndex,
+			MaxNumBins: t.maxNumBins, Collapsed: t.isCollapsed}, true
+	case *BufferedPaginatedStore:
+		l = VerifLayout{Kind: "paginated", BufferLen: len(t.buffer), BufferCap: cap(t.buffer), CompactionTrigger: t.bufferCompactionTriggerLen,
+			PageSlots: len(t.pages), MinPageIndex: t.minPageIndex, PagesUnused: t.minPageIndex == maxInt}
+		for _, p := range t.pages {
+			if len(p) > 0 {
+				l.AllocatedPages++
+			}
+		}
+		return l, true
+	case *SparseStore:
+		return VerifLayout{Kind: "sparse", ArrayLen: len(t.counts)}, true
+	}
+	return VerifLayout{}, false
+}
